@@ -201,7 +201,7 @@ where
 {
     fn sample<R: ::rand::Rng + ?Sized>(&self, rng: &mut R) -> OVector<f64, D> {
         let mut sum = 0.0;
-        OVector::from_iterator_generic(
+        let mut samples = OVector::from_iterator_generic(
             self.alpha.shape_generic().0,
             nalgebra::Const::<1>,
             self.alpha.iter().map(|&a| {
@@ -209,7 +209,9 @@ where
                 sum += sample;
                 sample
             }),
-        )
+        );
+        samples.unscale_mut(sum);
+        samples
     }
 }
 
